@@ -66,6 +66,13 @@ def correspond(ctx):
             c, s = extract(sc)
         except AssertionError:
             co.note("skipped: fewer than 3 streams in a layer"); continue
+        except Warning:
+            # a substrate/interface model declaring the scene outside its validity range (it raises a Warning): loud, not a wrong value
+            tries = getattr(co, "_refused", 0) + 1; co._refused = tries
+            co.note("skipped: a boundary model refused the scene (Warning raised)")
+            if tries > 4 * n:
+                break
+            continue
         made += 1
         res = max(dortlib.eigen_residual(c) or [0.0])
         co.note("eigen residual <1e-8" if res < 1e-8 else "eigen residual LARGE")
@@ -89,11 +96,9 @@ def correspond(ctx):
 
 def run_tb(sc, thetas):
     from smrt import make_model, sensor_list
-    sp, atm = scenes.build(sc)
+    sp = scenes.medium(sc)
     m = make_model(sc["emmodel"], "dort", rtsolver_options=dict(n_max_stream=sc["nmax"]), emmodel_options=sc.get("emmodel_options"))
     sensor = sensor_list.passive(sc["frequency"], thetas)
-    if atm is not None:
-        sp = atm + sp
     res = m.run(sensor, sp)
     return np.asarray(res.data.values), res
 
@@ -115,19 +120,20 @@ def check_iso(sc):
     return None
 
 
-def iso_scene(rng, em, ms, nlayer=None, lossless=None):
+def iso_scene(rng, em, ms, nlayer=None, lossless=None, substrate="random"):
     T = round(float(rng.uniform(200, 272)), 2)
     lossless = bool(rng.random() < 0.5) if lossless is None else lossless
     lossless = lossless and em != "nonscattering"
     # the isotropic sky radiation at T is part of the scene: a lossless "atmosphere" with tb_down = T
     sc = scenes.random_scene(rng, nlayer=nlayer, lossless=lossless, isothermal=T, microstructure=ms, max_layers=8,
-                             atmosphere=True, thick=(0.01, 50.0))
+                             atmosphere=True, thick=(0.01, 50.0), substrate=substrate)
     if sc.get("substrate") is None and not lossless:
         # without substrate the half-space below is cold vacuum: not an isothermal scene unless the pack is opaque
         sc["substrate"] = dict(kind="flat", T=T, eps=[round(float(rng.uniform(2, 30)), 3), round(float(rng.uniform(0.05, 5)), 3)])
     if sc.get("substrate") is None:
         sc["substrate"] = dict(kind="flat", T=T, eps=[round(float(rng.uniform(2, 30)), 3), 0.0])
     sc["emmodel"], sc["nmax"] = em, int(rng.choice([16, 32]))
+    sc["assembly"] = int(rng.integers(0, 4))        # the API offers several equivalent ways of putting the same scene together
     return sc
 
 
@@ -148,10 +154,15 @@ def oracle(ctx, hints, effort):
             d["temperature"] = [T] * len(d["thickness"]); d["substrate"]["T"] = T
             d["atmosphere"] = dict(tb_down=T, tb_up=0.0, trans=1.0)
             todo.append(d)
-    n = 12 if effort == "routine" else 90
+    n = 20 if effort == "routine" else 120
     for i in range(n):
         em, ms = PAIRINGS[i % (3 if effort == "routine" else len(PAIRINGS))]
-        todo.append(iso_scene(rng, em, ms, nlayer=1 if i % 4 == 0 else None))
+        # every kind of boundary in turn (each contributes its own reflectivity / emissivity pair), thin single layers half of the time
+        sub = scenes.SPECULAR_SUBSTRATES[(i // 2) % len(scenes.SPECULAR_SUBSTRATES)]
+        sc = iso_scene(rng, em, ms, nlayer=1 if i % 2 == 0 else None, substrate=sub)
+        if i % 2 == 0:
+            sc["thickness"] = [round(float(rng.uniform(0.02, 0.5)), 3)]
+        todo.append(sc)
     for sc in todo:
         evals += 1
         try:
@@ -160,7 +171,7 @@ def oracle(ctx, hints, effort):
             continue
         except Exception as e:  # noqa  (a scattering theory outside its domain raising SMRTError is not a wrong value)
             from smrt.core.error import SMRTError
-            if isinstance(e, SMRTError):
+            if isinstance(e, (SMRTError, Warning)):
                 continue
             raise
         if r is not None:
